@@ -33,7 +33,7 @@ for pid in ALL:
 
 man = {
     "version": 1,
-    "setup_cmd": "cd lean && /venv/bin/python ../harness/extract_consts.py && lake build",
+    "setup_cmd": "cd lean && /venv/bin/python ../harness/extract_consts.py && lake build && /venv/bin/python ../harness/build_ties.py",
     "hooks": {"guard": "SERIF_VERIF", "enable": "no source hooks are needed: the harness imports serif from /repo/src in-process and reads "
               "private attributes read-only; SERIF_VERIF=1 is set by the checks but nothing in /repo reads it",
               "baseline_off_cmd": BASELINE, "source_commits": [], "add_only": True},
